@@ -84,8 +84,10 @@ def run_one(prop, run_seed, tier, scenario=None):
     seams.reset_faults()
     m = load_machine(prop)
     if scenario is not None and scenario.get("worker_history"):
-        # C19 only: the violation was observed after these runs had been executed in the same
-        # worker process ("what other diagrams were built earlier in the same process")
+        # the violation was observed after these runs had been executed in the same worker
+        # process ("what other diagrams were built earlier in the same process"): C19 always
+        # replays with it; the other checks only when the scenario alone does not reproduce
+        # (state that the library keeps per process instead of per diagram)
         hist = scenario["worker_history"]
         for hseed, htier in hist:
             try:
@@ -97,7 +99,7 @@ def run_one(prop, run_seed, tier, scenario=None):
     sc = scenario if scenario is not None else m.gen_scenario(run_seed, tier)
     res = m.run(sc)
     if scenario is None:
-        if getattr(m, "NONDETERMINISTIC_REPLAY", False) and res.get("violations") and res.get("trace") is not None and _WORKER_HISTORY:
+        if res.get("violations") and res.get("trace") is not None and _WORKER_HISTORY:
             res["trace"]["worker_history"] = list(_WORKER_HISTORY)
         _WORKER_HISTORY.append((run_seed, tier))
     return res
@@ -321,6 +323,9 @@ def batch(prop, tier, batch_seed, runs=None, wall=None, workers=None, write_evid
             continue
         r, v = unknown_items[0]
         trace = r["trace"]
+        hist = None
+        if not getattr(m, "NONDETERMINISTIC_REPLAY", False):
+            hist = trace.pop("worker_history", None)
         mini = None
         n_min = getattr(batch, "_n_min", 0)
         if not os.environ.get("BIOSIM_NO_MINIMIZE") and n_min < 3 and not trace.get("worker_history"):
@@ -339,6 +344,13 @@ def batch(prop, tier, batch_seed, runs=None, wall=None, workers=None, write_evid
         if not ok and mini:
             # fall back to the unminimised trace
             save_json(path, {"property": prop, "violation": v, "minimised": False, "scenario": trace})
+            ok, info = verify_fresh(prop, path, sig)
+        if not ok and hist:
+            # not reproducible from the scenario alone: replay it after the runs that the same
+            # worker process had executed before it (deterministic: one process, same order)
+            trace_h = dict(trace)
+            trace_h["worker_history"] = hist
+            save_json(path, {"property": prop, "violation": v, "minimised": False, "needs_process_history": True, "scenario": trace_h})
             ok, info = verify_fresh(prop, path, sig)
         if ok:
             violation_lines.append((sig, path, len(unknown_items), (mini or {}).get("violation", v)))
